@@ -15,6 +15,7 @@ package c10
 import (
 	"fmt"
 	"runtime/debug"
+	"sort"
 	"strings"
 	"sync"
 
@@ -77,7 +78,14 @@ func (rp *reporter) seq(h History, v *Verdict) {
 	r.Count("rejected_submissions", int64(v.nReject))
 	r.Count("histories_"+h.Region, 1)
 	nontrivial := v.nReject+v.nRest+v.nCrash > 0
-	r.Eval(h.Region+":"+h.kinds(), nontrivial, map[string]any{"region": h.Region, "queue_bound": h.Bound, "ops": opStrings(h.Ops), "verdict": v.Kind})
+	sampleOps := opStrings(h.Ops)
+	if len(sampleOps) > 120 {
+		sampleOps = append(sampleOps[:120:120], fmt.Sprintf("... %d more operations", len(h.Ops)-120))
+	}
+	r.Eval(h.Region+":"+h.kinds(), nontrivial, map[string]any{"region": h.Region, "queue_bound": h.Bound, "ops": sampleOps, "verdict": v.Kind})
+	if h.Region == regionLong && v.Kind == "pass" {
+		r.Hit("long-history")
+	}
 	switch v.Kind {
 	case "pass":
 		if v.TrigA || v.TrigB {
@@ -86,8 +94,9 @@ func (rp *reporter) seq(h History, v *Verdict) {
 	case "inconclusive":
 		r.Inconclusive(fmt.Sprintf("sequential history %d: %s", h.ID, v.Detail))
 	case "finding":
-		if h.Region == "clean" || h.Region == "legacy" {
+		if h.Region == "clean" || h.Region == "legacy" || h.Region == regionLong {
 			// cannot happen: no trigger point exists in a clean history, none is forked with legacy records
+			// or in a long history
 			rp.violation(h, v, "fifo-model", "deviation flagged in a history without trigger point: "+v.Detail)
 			return
 		}
@@ -123,13 +132,26 @@ func (rp *reporter) violation(h History, v *Verdict, clause, detail string) {
 	}
 	small, sv := h, v
 	if v.Kind == "violation" {
-		small = shrink(h, sameVerdict(v))
+		if len(h.Ops) > 120 {
+			small = shrinkBudget(h, sameVerdict(v), 3000000)
+		} else {
+			small = shrink(h, sameVerdict(v))
+		}
 		sv = Judge(small)
 		detail = sv.Detail
 	}
 	w := witness(small, sv)
-	w["original_history"] = h
+	if len(h.Ops) > 2000 {
+		w["original_history"] = fmt.Sprintf("history %d of region %s with %d operations (a function of the seed; not stored)", h.ID, h.Region, len(h.Ops))
+	} else {
+		w["original_history"] = h
+	}
 	reporting(func() {
+		if len(small.Ops) > 40 {
+			// the printed line is cut: what was observed goes first
+			rp.r.Violation(clause, fmt.Sprintf("region=%s bound=%d: %s; history of %d operations (shrunk from %d)=[%s]", h.Region, small.Bound, detail, len(small.Ops), len(h.Ops), strings.Join(opStrings(small.Ops), ", ")), w)
+			return
+		}
 		rp.r.Violation(clause, fmt.Sprintf("region=%s bound=%d legacy-records=%v history=[%s]: %s", h.Region, small.Bound, small.Legacy, strings.Join(opStrings(small.Ops), ", "), detail), w)
 	})
 }
@@ -184,6 +206,7 @@ func pool(n int, f func(i int)) {
 func Run(r *vk.Run) {
 	world.Silence()
 	r.Rule = "sequential: seeded histories of 20-80 operations {submit(batch from the alphabet z|a|m, or unique) | submit empty/nil | submit foreign chain id | next | restart | submit/next during which the process dies at its 1st, 2nd or 3rd durable write (or right after the operation if it makes fewer)} on the real single sequencer over MemDS, queue bound 1|2|5|unbounded, then drain + restart; one in ten histories starts on a database holding 1-3 records of the version before the sequence-numbered keys; 420 directed histories put the death at write 1|2|3 of a submit / next into fixed small contexts; " +
+		"long: histories with 150-450 accepted submissions (and a few with > 12300; thorough also > 66000) of unique batches in which at least one batch is pending at every restart and crash, so that one queue life spans the whole history (pending window 2-4|2-10|8-48, restart or crash every 3|8|20|50 operations, bound 0|4|8|64), judged by the plain FIFO model; " +
 		"non-trivial = >= 1 rejected, restarted or crashed operation; distinct by (region, bound, operation-kind sequence). " +
 		"concurrent: 2-6 client goroutines with unique batch ids, <= 60 recorded operations; always non-trivial; distinct by hash of the recorded history (client, op, output, call, return). " +
 		"Regions: clean = no restart is a trigger point (no tainted content queued, <= 1 batch queued); content-hash-key = trigger A holds at some restart; reload-order = trigger B holds and A never."
@@ -221,6 +244,14 @@ func Run(r *vk.Run) {
 		legacy[i] = genSeq(rng, nSeq+i, "legacy")
 	}
 	templates := crashTemplates()
+	// long histories (long.go): one queue life over the whole history; the longest first
+	lrng := r.Rand("long")
+	lens := longLengths(lrng, r.N(48, 400), r.N(2, 12), r.N(0, 4))
+	sort.Sort(sort.Reverse(sort.IntSlice(lens)))
+	lseeds := make([]int64, len(lens))
+	for i := range lseeds {
+		lseeds[i] = lrng.Int63()
+	}
 	crng := r.Rand("concurrent")
 	conc := make([]CHistory, nConc)
 	for i := range conc {
@@ -241,7 +272,15 @@ func Run(r *vk.Run) {
 	r.Require("linearizable", int64(nConc*8/10))
 	r.Require("conservation", int64(nConc*8/10))
 
+	r.Require("long-history", int64(len(lens)))
+
 	// 1. clean region: every failure is a violation
+	pool(len(lens), func(i int) {
+		guarded(r, fmt.Sprintf("long history %d (%d accepted submissions, generator seed %d)", 2*nSeq+i, lens[i], lseeds[i]), func() {
+			h, v := runLong(lseeds[i], 2*nSeq+i, lens[i])
+			rp.seq(h, v)
+		})
+	})
 	pool(len(clean), func(i int) { guarded(r, clean[i], func() { rp.seq(clean[i], Judge(clean[i])) }) })
 	pool(len(templates), func(i int) { guarded(r, templates[i], func() { rp.seq(templates[i], Judge(templates[i])) }) })
 	pool(len(legacy), func(i int) { guarded(r, legacy[i], func() { rp.seq(legacy[i], Judge(legacy[i])) }) })
